@@ -51,3 +51,11 @@ Definition file_of (files : list (Z * Z)) (p : Z) : option nat :=
        | Some (base, size) => if p <=? base + size then Some (Z.to_nat i) else None
        | None => None
        end.
+
+(* SourceFile.AddLine: the offset is appended when it lies above the last entry and inside the file;
+   a file starts with the table [0] (AddFile) *)
+Definition add_line (size : Z) (lines : list Z) (off : Z) : list Z :=
+  if (Nat.eqb (length lines) 0 || (nth (length lines - 1) lines 0 <? off)) && (off <? size)
+  then lines ++ [off] else lines.
+
+Definition add_lines (size : Z) (offs : list Z) : list Z := fold_left (add_line size) offs [0].
